@@ -125,6 +125,7 @@ func (c *Ctx) calleeDerives(fn *ssa.Function, active map[*ssa.Function]bool, cha
 
 func runC19(c *Ctx) {
 	R := c.R
+	defer c.include("C19.S1", "C12", []string{"C12.R2"}, "the context every parser and statement call receives carries the server parameters that were announced", 6)
 	R.Technique = "start-up automaton (shared with C12.R1), dominance rules on the middleware composition, context-provenance slicing, Terminate-arm automaton"
 	R.Explanation = "Decides: (R1) the session middleware runs once per connection after the authentication step and before the first ReadyForQuery, and a failing middleware is followed by nothing but an optional ErrorResponse - the command loop is never entered; " +
 		"(R2) SessionMiddleware composes parent-first: the previously registered handler is called exactly once, the new handler is called only on the parent's err == nil edge with the parent's returned context, and the error tested is the parent's own result (not shared state); registration wraps the current Server.Session; " +
@@ -527,8 +528,8 @@ func (c *Ctx) c19Contexts() {
 			n := 0
 			for _, ci := range core.Calls(hc) {
 				callee := core.StaticCallee(ci)
-				if callee == nil || !c.P.InPkg(callee, "wire") {
-					continue
+				if (callee == nil || !c.P.InPkg(callee, "wire")) && callbackName(ci) == "" {
+					continue // neither a handler of the library nor a user hook called from the dispatch itself
 				}
 				for _, a := range ci.Common().Args {
 					if isCtxType(a.Type()) {
@@ -679,7 +680,14 @@ func (c *Ctx) c19Terminate() {
 				}
 			}
 		}
-		bypass := mustPassViolations(hookFn.Blocks[0], hookCall.Block(), skip)
+		hookStart := hookFn.Blocks[0]
+		if hookFn == hc {
+			// the hook is called in the arm itself: the paths that matter start where the type test selected Terminate
+			for _, e := range constEqEdges(tparam, int64('X'), true) {
+				hookStart = e.to()
+			}
+		}
+		bypass := mustPassViolations(hookStart, hookCall.Block(), skip)
 		for _, r := range bypass {
 			R.Fail("C19.R4", fkey(hookFn)+":hook-skipped:"+retDescr(r), c.at(r), "a configured terminate hook is invoked for every Terminate message of every connection", "a return of "+fname(hookFn)+" is reachable without invoking the hook although TerminateConn != nil (the hook runs zero times for some Terminate messages)")
 		}
